@@ -35,10 +35,14 @@ type FuncContract struct {
 	results  []string
 	requires []*clause
 	ensures  []*clause
+	atAssumes []*atAssume
+	preserves []string
 	hints    []*clause // replay preferences: not facts, only used to pick a model
 	panics   string // "", "never", "may"
 	assigns  []string
 	loopInvs map[int][]*clause
+	loopDecr map[int][]*clause
+	decreases []*clause
 	tco      int
 	tcoVars  []string
 	pure     bool
@@ -48,6 +52,10 @@ type FuncContract struct {
 	line     int
 	isField  bool
 	props    []string
+}
+
+func (fc *FuncContract) explicitFrame() bool {
+	return fc.pure || len(fc.assigns) > 0 || len(fc.preserves) > 0
 }
 
 func (fc *FuncContract) modular() bool {
@@ -79,6 +87,12 @@ type Lemma struct {
 	hyps  []*clause
 	goal  *clause
 	props []string
+}
+
+type atAssume struct {
+	src  string
+	cl   *clause
+	used bool
 }
 
 type TypeInv struct {
@@ -164,7 +178,7 @@ func (cs *Contracts) parseFile(p *packages.Package, file string) {
 		line int
 	}
 	var raws []raw
-	kw := regexp.MustCompile(`^(invariant|func|field|spec|lemma|requires|ensures|hint|panics|assigns|loop|tco|pure|trusted|inline|hyp|goal|props)\b`)
+	kw := regexp.MustCompile(`^(invariant|func|field|spec|lemma|requires|ensures|hint|decreases|at|preserves|panics|assigns|loop|tco|pure|trusted|inline|hyp|goal|props)\b`)
 	for i, ln := range strings.Split(string(data), "\n") {
 		t := strings.TrimSpace(ln)
 		if !strings.HasPrefix(t, "//@") {
@@ -221,7 +235,7 @@ func (cs *Contracts) parseFile(p *packages.Package, file string) {
 			} else {
 				key = p.PkgPath + "." + name
 			}
-			cur = &FuncContract{pkg: p, key: key, name: name, params: splitNames(m[2]), results: splitNames(m[3]), loopInvs: map[int][]*clause{}, file: file, line: r.line}
+			cur = &FuncContract{pkg: p, key: key, name: name, params: splitNames(m[2]), results: splitNames(m[3]), loopInvs: map[int][]*clause{}, loopDecr: map[int][]*clause{}, file: file, line: r.line}
 			cs.funcs[key] = cur
 			curLemma = nil
 		case "field":
@@ -231,7 +245,7 @@ func (cs *Contracts) parseFile(p *packages.Package, file string) {
 				cur = nil
 				continue
 			}
-			cur = &FuncContract{pkg: p, key: m[1], name: m[1], params: splitNames(m[2]), results: splitNames(m[3]), loopInvs: map[int][]*clause{}, file: file, line: r.line, isField: true}
+			cur = &FuncContract{pkg: p, key: m[1], name: m[1], params: splitNames(m[2]), results: splitNames(m[3]), loopInvs: map[int][]*clause{}, loopDecr: map[int][]*clause{}, file: file, line: r.line, isField: true}
 			cs.fields[m[1]] = cur
 			curLemma = nil
 		case "spec":
@@ -333,6 +347,25 @@ func (cs *Contracts) parseFile(p *packages.Package, file string) {
 				if c := mkClause(rest); c != nil {
 					cur.ensures = append(cur.ensures, c)
 				}
+			case "decreases":
+				for _, part := range splitTop(rest) {
+					if c := mkClause(part); c != nil {
+						cur.decreases = append(cur.decreases, c)
+					}
+				}
+			case "preserves":
+				cur.preserves = append(cur.preserves, splitNames(rest)...)
+			case "at":
+				// at "source line text" assume expr
+				am := regexp.MustCompile("^\"((?:[^\"\\\\]|\\\\.)*)\"\\s+assume\\s+(.*)$").FindStringSubmatch(rest)
+				if am == nil {
+					cs.errf(file, r.line, "bad at-clause %q", t)
+					continue
+				}
+				src, _ := strconv.Unquote("\"" + am[1] + "\"")
+				if c := mkClause(am[2]); c != nil {
+					cur.atAssumes = append(cur.atAssumes, &atAssume{src: normSrc(src), cl: c})
+				}
 			case "hint":
 				if c := mkClause(rest); c != nil {
 					cur.hints = append(cur.hints, c)
@@ -360,6 +393,14 @@ func (cs *Contracts) parseFile(p *packages.Package, file string) {
 					src := strings.TrimSpace(strings.SplitN(rest, "invariant", 2)[1])
 					if c := mkClause(src); c != nil {
 						cur.loopInvs[n] = append(cur.loopInvs[n], c)
+					}
+				} else if len(fs) >= 3 && fs[1] == "decreases" {
+					n, _ := strconv.Atoi(fs[0])
+					src := strings.TrimSpace(strings.SplitN(rest, "decreases", 2)[1])
+					for _, part := range splitTop(src) {
+						if c := mkClause(part); c != nil {
+							cur.loopDecr[n] = append(cur.loopDecr[n], c)
+						}
 					}
 				} else {
 					cs.errf(file, r.line, "bad loop clause %q", t)
@@ -467,4 +508,25 @@ func lookupTypeName(p *packages.Package, e ast.Expr) types.Type {
 		}
 	}
 	return nil
+}
+
+// splitTop splits on commas that are not nested in parentheses/brackets.
+func splitTop(s string) []string {
+	var out []string
+	depth, start := 0, 0
+	for i, r := range s {
+		switch r {
+		case '(', '[':
+			depth++
+		case ')', ']':
+			depth--
+		case ',':
+			if depth == 0 {
+				out = append(out, strings.TrimSpace(s[start:i]))
+				start = i + 1
+			}
+		}
+	}
+	out = append(out, strings.TrimSpace(s[start:]))
+	return out
 }
